@@ -22,7 +22,7 @@ def run(rep, tier):
     parts = xh.write_module("hC19_parts", H.parts_source())
     n = int(nloc)
     targets = [f"{parts}.check_split_{a}{b}" for a in range(n) for b in range(n)]
-    targets += [f"{MOD}.{f}" for f in ("check_introspection_equals_sdl", "check_introspection_failures", "check_headers_env", "twin_introspection_valid_reached")]
+    targets += [f"{MOD}.{f}" for f in ("check_introspection_equals_sdl", "check_introspection_failures", "check_malformed_introspection_data", "check_headers_env", "twin_introspection_valid_reached")]
     res = xh.run_targets(targets, timeout=600 if tier == "quick" else 3000, env_extra=env)
     xh.fold(rep, parts, [r for r in res if r.target.startswith(parts)])
     xh.fold(rep, MOD, [r for r in res if r.target.startswith(MOD)])
